@@ -37,17 +37,23 @@ pub fn run(ctx: &Ctx) -> i32 {
         let cfg = if cc.idx % 2 == 0 { Cfg::Wa } else { Cfg::Exp };
         with_cfg!(cfg, TC, { block_on(claim_case::<TC>(cc, rng, l)) });
     });
+    // small-order "public keys": anybody can forge proofs under them, and all forgeries give ONE node label
+    par_cases(ctx, &mon, "smallorder", 16, |cc, rng, l| {
+        let cfg = if cc.idx % 2 == 0 { Cfg::Wa } else { Cfg::Exp };
+        with_cfg!(cfg, TC, { small_order_case::<TC>(cc, rng, l) });
+    });
     finish(
         ctx,
         &mon,
         Spec::new(
             "exploration",
-            "keys: the hard-coded key + random keys; labels: empty, 1 byte, 32 bytes, 4 KiB, prefix-related pairs, pairs differing in the last bit; versions {1,2,255,256,2^32-1,2^32,2^63,u64::MAX,random}; both freshness values; both configurations. Self-consistency of get_node_label / get_node_labels / get_node_label_from_vrf_proof(get_label_proof) and determinism; verification (public key bytes -> VRFPublicKey::try_from -> verify -> node label from proof) succeeds for the honest tuple and fails after altering key, label, freshness, version or the claimed node label; every single-bit flip of the 80 proof bytes, non-canonical scalars, random strings and wrong lengths either fail or yield the SAME node label; different secret keys give different node labels and commitments; end to end through lookup_verify/key_history_verify with right and wrong public keys; claim-consistent trees: a dishonest server places the leaf of (label, version 1) at an ALTERED node label (single bit flipped at position 0/255/random, bit length 255/200/random with the VRF bytes kept or canonically truncated) with the matching commitment, and presents lookup and history proofs whose tree part is genuine for that altered label - only the comparison of the VRF output with the claimed node label (all 256 bits and the length) can reject; the unaltered control must be accepted. distinct = (alteration class, field, cfg); non-trivial = negative case",
+            "keys: the hard-coded key + random keys; labels: empty, 1 byte, 32 bytes, 4 KiB, prefix-related pairs, pairs differing in the last bit; versions {1,2,255,256,2^32-1,2^32,2^63,u64::MAX,random}; both freshness values; both configurations. Self-consistency of get_node_label / get_node_labels / get_node_label_from_vrf_proof(get_label_proof) and determinism; verification (public key bytes -> VRFPublicKey::try_from -> verify -> node label from proof) succeeds for the honest tuple and fails after altering key, label, freshness, version or the claimed node label; every single-bit flip of the 80 proof bytes, non-canonical scalars, random strings and wrong lengths either fail or yield the SAME node label; different secret keys give different node labels and commitments; end to end through lookup_verify/key_history_verify with right and wrong public keys; small-order keys: each of the 8 torsion points of edwards25519 as the verification key, with proofs forged WITHOUT a secret key (Gamma = identity, s = k, challenge guessed mod 8; ECVRF helpers re-implemented from RFC 9381 and cross-checked against an honest proof) - verification must fail for every input; claim-consistent trees: a dishonest server places the leaf of (label, version 1) at an ALTERED node label (single bit flipped at position 0/255/random, bit length 255/200/random with the VRF bytes kept or canonically truncated) with the matching commitment, and presents lookup and history proofs whose tree part is genuine for that altered label - only the comparison of the VRF output with the claimed node label (all 256 bits and the length) can reject; the unaltered control must be accepted. distinct = (alteration class, field, cfg); non-trivial = negative case",
         )
         .need("honest_tuples_verified", ctx.tier.pick(2_000, 20_000))
         .need("altered_inputs_rejected", ctx.tier.pick(10_000, 100_000))
         .need("proof_bit_flips", ctx.tier.pick(30_000, 250_000))
         .need("e2e_wrong_key_rejected", ctx.tier.pick(20, 150))
+        .need("small_order_keys_tried", 16)
         .need("claim_consistent_tree_controls_accepted", ctx.tier.pick(8, 80))
         .need("claim_consistent_tree_alterations_rejected", ctx.tier.pick(100, 1000)),
     )
@@ -467,5 +473,145 @@ async fn claim_case<TC: Configuration>(cc: &CaseCtx, rng: &mut Rng, l: &mut Loca
     l.case(format!("claim/{class}/{}", cfg_of::<TC>().name()).as_bytes(), kind != 0);
     if cc.idx < 2 {
         l.sample(json!({"case": cc.id, "family": "claim-consistent tree", "class": class, "label": hx(&victim)}));
+    }
+}
+
+// ---------------------------------------------------------------------------------------------
+// Small-order public keys.  Public parts of ECVRF-EDWARDS25519-SHA512-TAI (RFC 9381) re-implemented
+// here (the library keeps them private); nothing below needs a secret key.
+
+mod rfc9381 {
+    use curve25519_dalek::edwards::{CompressedEdwardsY, EdwardsPoint};
+    use curve25519_dalek::scalar::Scalar;
+    use curve25519_dalek::traits::IsIdentity;
+    use sha2::{Digest, Sha512};
+    const SUITE: u8 = 0x03;
+
+    pub fn encode_to_curve(pk_bytes: &[u8; 32], alpha: &[u8]) -> EdwardsPoint {
+        let mut counter = 0u8;
+        loop {
+            let hash = Sha512::new().chain_update([SUITE, 0x01]).chain_update(pk_bytes).chain_update(alpha).chain_update([counter, 0x00]).finalize();
+            counter = counter.wrapping_add(1);
+            let mut candidate = [0u8; 32];
+            candidate.copy_from_slice(&hash[..32]);
+            if let Some(point) = CompressedEdwardsY(candidate).decompress() {
+                let point = point.mul_by_cofactor();
+                if !point.is_identity() {
+                    return point;
+                }
+            }
+        }
+    }
+
+    pub fn challenge(pk_bytes: &[u8; 32], h_point: &EdwardsPoint, points: &[EdwardsPoint]) -> Scalar {
+        let mut hash = Sha512::new().chain_update([SUITE, 0x02]).chain_update(pk_bytes).chain_update(h_point.compress().to_bytes());
+        for point in points {
+            hash = hash.chain_update(point.compress().to_bytes());
+        }
+        let digest = hash.chain_update([0x00]).finalize();
+        let mut c = [0u8; 32];
+        c[..16].copy_from_slice(&digest[..16]);
+        Scalar::from_bytes_mod_order(c)
+    }
+}
+
+/// With Gamma = identity the verifier recomputes U = s*B - c*PK and V = s*H; c*PK depends on c mod 8
+/// only when PK has small order.  Pick k, guess j = c mod 8, set U = k*B - j*PK, V = k*H, compute c and
+/// keep (Gamma, c, s = k) when the guess was right.  Returns the 80 proof bytes.
+fn forge_under_small_order_key(pk_point: &curve25519_dalek::edwards::EdwardsPoint, pk_bytes: &[u8; 32], alpha: &[u8]) -> Option<Vec<u8>> {
+    use curve25519_dalek::constants::ED25519_BASEPOINT_POINT;
+    use curve25519_dalek::edwards::EdwardsPoint;
+    use curve25519_dalek::scalar::Scalar;
+    use curve25519_dalek::traits::Identity;
+    let h_point = rfc9381::encode_to_curve(pk_bytes, alpha);
+    let gamma = EdwardsPoint::identity();
+    for k in 1u64..400 {
+        let ks = Scalar::from(k);
+        let v = h_point * ks;
+        for j in 0u8..8 {
+            let u = ED25519_BASEPOINT_POINT * ks - pk_point * Scalar::from(j);
+            let c = rfc9381::challenge(pk_bytes, &h_point, &[gamma, u, v]);
+            if c.to_bytes()[0] & 7 == j {
+                let mut out = gamma.compress().to_bytes().to_vec();
+                out.extend_from_slice(&c.to_bytes()[..16]);
+                out.extend_from_slice(&ks.to_bytes());
+                return Some(out);
+            }
+        }
+    }
+    None
+}
+
+fn small_order_case<TC: Configuration>(cc: &CaseCtx, rng: &mut Rng, l: &mut Local) {
+    use curve25519_dalek::constants::{ED25519_BASEPOINT_POINT, EIGHT_TORSION};
+    use curve25519_dalek::edwards::CompressedEdwardsY;
+    use curve25519_dalek::scalar::Scalar;
+    let cfg = cfg_of::<TC>();
+    // ---- the re-implemented helpers must agree with the library on an HONEST proof (vacuity guard)
+    {
+        let vrf = KeyVrf::hard_coded();
+        let al = AkdLabel(b"alice".to_vec());
+        let alpha = TC::get_hash_from_label_input(&al, VersionFreshness::Fresh, 7);
+        let (Ok(pk), Ok(proof)) = (block_on(vrf.get_vrf_public_key()), block_on(vrf.get_label_proof::<TC>(&al, VersionFreshness::Fresh, 7))) else {
+            l.inconclusive("could not produce an honest proof");
+            return;
+        };
+        let pb = proof.to_bytes();
+        let mut pkb = [0u8; 32];
+        pkb.copy_from_slice(pk.as_bytes());
+        let ok = (|| {
+            let pk_point = CompressedEdwardsY(pkb).decompress()?;
+            let gamma = CompressedEdwardsY::from_slice(&pb[..32]).ok()?.decompress()?;
+            let mut c = [0u8; 32];
+            c[..16].copy_from_slice(&pb[32..48]);
+            let c = Scalar::from_bytes_mod_order(c);
+            let mut s = [0u8; 32];
+            s.copy_from_slice(&pb[48..80]);
+            let s = Scalar::from_bytes_mod_order(s);
+            let h = rfc9381::encode_to_curve(&pkb, &alpha);
+            let u = ED25519_BASEPOINT_POINT * s - pk_point * c;
+            let v = h * s - gamma * c;
+            Some(c == rfc9381::challenge(&pkb, &h, &[gamma, u, v]))
+        })();
+        if ok != Some(true) {
+            l.inconclusive("the harness's re-implementation of the public ECVRF steps disagrees with the library on an honest proof");
+            return;
+        }
+        l.count("small_order_helper_cross_checked", 1);
+    }
+    let t = &EIGHT_TORSION[(cc.idx / 2) as usize % 8];
+    let pk_bytes = t.compress().to_bytes();
+    l.eval(1);
+    l.count("small_order_keys_tried", 1);
+    l.case(format!("smallorder/{}/{}", hex::encode(&pk_bytes[..4]), cfg.name()).as_bytes(), true);
+    let parsed = guarded(l, "C18:", "VRFPublicKey::try_from(small-order point)", |_| VRFPublicKey::try_from(&pk_bytes[..]));
+    let Some(parsed) = parsed else { return };
+    let Ok(pk) = parsed else {
+        l.count("small_order_keys_refused_at_parse", 1);
+        return;
+    };
+    // the key parses: then no forged proof may verify
+    let mut verified = 0;
+    let mut labels_seen = std::collections::HashSet::new();
+    let inputs: Vec<(Vec<u8>, bool, u64)> = vec![(vec![], true, 1), (b"alice".to_vec(), true, 2), (b"alice".to_vec(), false, 2), (rng.bytes(40), true, u64::MAX), (vec![0xab; 3000], false, 1)];
+    for (label, fresh, version) in &inputs {
+        let alpha = TC::get_hash_from_label_input(&AkdLabel(label.clone()), fr(*fresh), *version);
+        let Some(forged) = forge_under_small_order_key(t, &pk_bytes, &alpha) else { continue };
+        l.count("small_order_forgeries_built", 1);
+        let Ok(proof) = Proof::try_from(&forged[..]) else { continue };
+        if pk.verify(&proof, &alpha).is_ok() {
+            verified += 1;
+            let nl = block_on(KeyVrf::hard_coded().get_node_label_from_vrf_proof(proof));
+            labels_seen.insert(nl.label_val);
+        }
+    }
+    if verified > 0 {
+        l.violation(
+            "C18:small-order-public-key-accepted",
+            format!("the small-order point {} is accepted as a VRF public key and {verified} of {} proofs forged WITHOUT any secret key verify under it, yielding {} distinct node label(s) for unrelated (label, freshness, version) inputs", hex::encode(pk_bytes), inputs.len(), labels_seen.len()),
+            json!({"cfg": cfg.name(), "public_key": hex::encode(pk_bytes), "verified": verified}),
+        );
+    } else {
+        l.count("small_order_keys_parsed_but_no_forgery_verified", 1);
     }
 }
